@@ -120,11 +120,13 @@ impl Compactor {
 			input.tables_to_merge.iter().filter_map(|&id| tables.get(&id).cloned()).collect();
 
 		// Keep tables alive while iterators borrow from them
-		let iterators: Vec<BoxedLSMIterator<'_>> = to_merge
-			.iter()
-			.filter_map(|table| table.iter(None).ok())
-			.map(|iter| Box::new(iter) as BoxedLSMIterator<'_>)
-			.collect();
+		// An input table that cannot be read must fail the compaction. (Skipping it would
+		// write an output without its entries, and the manifest update below would then
+		// delete the table: silent data loss.)
+		let mut iterators: Vec<BoxedLSMIterator<'_>> = Vec::with_capacity(to_merge.len());
+		for table in &to_merge {
+			iterators.push(Box::new(table.iter(None)?) as BoxedLSMIterator<'_>);
+		}
 
 		drop(levels);
 
